@@ -166,6 +166,9 @@ func (l *PeerList) Exclude(ex *PeerList) *PeerList {
 
 // Returns the list randomly shuffled
 func (l *PeerList) Shuffle() *PeerList {
+	if simShuffle(l) {
+		return l
+	}
 	rand.Shuffle(len(l.L), func(i, j int) {
 		l.L[i], l.L[j] = l.L[j], l.L[i]
 	})
